@@ -135,6 +135,44 @@ where
     })?;
     let want: Vec<T> = exp.iter().skip(1).step_by(2).cloned().collect();
     ensure_eq!(hops, want, format!("{site}/nth_repeated"), "repeated nth(1) over {n} items");
+    // consumers applied to an iterator that was already advanced (by next() calls, or by skip()):
+    // count / last / fold / nth must continue from the current position, and an exhausted iterator
+    // must stay exhausted for every consumer
+    let mut ks: Vec<usize> = vec![0, 1, n / 2, n.saturating_sub(1), n, n + 1];
+    ks.sort();
+    ks.dedup();
+    for &k in &ks {
+        let rest: &[T] = &exp[k.min(n)..];
+        let adv = || {
+            let mut it = mk();
+            for _ in 0..k {
+                it.next();
+            }
+            it
+        };
+        let what = format!("after {k} next() calls on {n} items");
+        let c = no_panic(&format!("{site}/advanced_count_panic"), &what, || adv().count())?;
+        ensure_eq!(c, rest.len(), format!("{site}/advanced_count"), "count() {what}");
+        let l = no_panic(&format!("{site}/advanced_last_panic"), &what, || adv().last().map(conv))?;
+        ensure_eq!(l.as_ref(), rest.last(), format!("{site}/advanced_last"), "last() {what}");
+        let f: Vec<T> = no_panic(&format!("{site}/advanced_fold_panic"), &what, || adv().fold(vec![], |mut acc, x| { if acc.len() < n + 2 { acc.push(conv(x)); } acc }))?;
+        ensure_eq!(&f[..], rest, format!("{site}/advanced_fold"), "fold() {what}");
+        let z = no_panic(&format!("{site}/advanced_nth_panic"), &what, || adv().nth(0).map(conv))?;
+        ensure_eq!(z.as_ref(), rest.first(), format!("{site}/advanced_nth"), "nth(0) {what}");
+        let (lo, hi) = adv().size_hint();
+        ensure!(lo <= rest.len() && hi.map_or(true, |h| h >= rest.len()), format!("{site}/advanced_size_hint"), "size_hint() {what} = ({lo}, {hi:?}) but {} items remain", rest.len());
+        // the same through skip(k): Skip forwards count/last/fold to the inner iterator after one nth
+        let what = format!("after skip({k}) on {n} items");
+        let c = no_panic(&format!("{site}/skip_count_panic"), &what, || mk().skip(k).count())?;
+        ensure_eq!(c, rest.len(), format!("{site}/skip_count"), "count() {what}");
+        let l = no_panic(&format!("{site}/skip_last_panic"), &what, || mk().skip(k).last().map(conv))?;
+        ensure_eq!(l.as_ref(), rest.last(), format!("{site}/skip_last"), "last() {what}");
+        let f: Vec<T> = no_panic(&format!("{site}/skip_fold_panic"), &what, || mk().skip(k).fold(vec![], |mut acc, x| { if acc.len() < n + 2 { acc.push(conv(x)); } acc }))?;
+        ensure_eq!(&f[..], rest, format!("{site}/skip_fold"), "fold() {what}");
+        let mut fe: Vec<T> = vec![];
+        no_panic(&format!("{site}/skip_for_each_panic"), &what, || mk().skip(k).for_each(|x| { if fe.len() < n + 2 { fe.push(conv(x)); } }))?;
+        ensure_eq!(&fe[..], rest, format!("{site}/skip_for_each"), "for_each() {what}");
+    }
     // zip / enumerate / fold go through next() or fold: the items and their order once more
     let folded: Vec<T> = no_panic(&format!("{site}/fold_panic"), "fold", || mk().fold(vec![], |mut acc, x| { if acc.len() < n + 2 { acc.push(conv(x)); } acc }))?;
     ensure_eq!(&folded[..], exp, format!("{site}/fold"), "fold() over {n} items");
